@@ -115,9 +115,25 @@ fn long_text(r: &mut Rng) -> String {
     s
 }
 
+/// a keyword: an identifier-like string literal of the crate's source (type names, signal names,
+/// message kinds the loader knows), safe inside XML text and attribute values
+fn kw(r: &mut Rng) -> String {
+    for _ in 0..8 {
+        let s = crate::dict::string(r);
+        if !s.is_empty() && s.len() <= 32 && s.bytes().all(|b| b.is_ascii_alphanumeric() || b == b'_' || b == b'-' || b == b':' || b == b'.') {
+            return s.to_string();
+        }
+    }
+    "DLT_TYPE_LOG".to_string()
+}
+
 fn text_variant(r: &mut Rng) -> String {
     if r.chance(1, 25) {
         return long_text(r);
+    }
+    if r.chance(1, 12) {
+        // a string literal of the crate's source (element names, type names, keywords), XML-escaped
+        return crate::dict::string(r).replace('&', "&amp;").replace('<', "&lt;").replace('>', "&gt;");
     }
     match r.below(9) {
         0 => String::new(),
@@ -160,7 +176,8 @@ pub fn gen_documents(r: &mut Rng) -> Vec<Vec<u8>> {
             _ => s += &format!("{ind}{ind}<{ho}DESC>{}</{ho}DESC>{nl}", text_variant(r)),
         }
         if r.chance(19, 20) {
-            s += &format!("{ind}{ind}<{fx}BYTE-LENGTH>{}</{fx}BYTE-LENGTH>{nl}", r.below(64));
+            let bl = if r.chance(1, 10) { crate::dict::num(r) } else { r.below(64) as u64 };
+            s += &format!("{ind}{ind}<{fx}BYTE-LENGTH>{}</{fx}BYTE-LENGTH>{nl}", bl);
         }
         s += &format!("{ind}{ind}<{fx}PDU-TYPE>OTHER</{fx}PDU-TYPE>{nl}");
         let ns = r.below(4);
@@ -172,7 +189,13 @@ pub fn gen_documents(r: &mut Rng) -> Vec<Vec<u8>> {
                 seqs.swap(k, j);
             }
             for (k, seq) in seqs.iter().enumerate() {
-                let sref = if nsig > 0 && r.chance(1, 3) { format!("SIG_{}", r.below(nsig)) } else { (*r.pick(SIGNAL_NAMES)).to_string() };
+                let sref = if nsig > 0 && r.chance(1, 3) {
+                    format!("SIG_{}", r.below(nsig))
+                } else if r.chance(1, 6) {
+                    kw(r)
+                } else {
+                    (*r.pick(SIGNAL_NAMES)).to_string()
+                };
                 s += &format!("{ind}{ind}{ind}<{fx}SIGNAL-INSTANCE ID=\"{id}_S{k}\">{nl}");
                 if r.bool() {
                     s += &format!("{ind}{ind}{ind}{ind}<{fx}SEQUENCE-NUMBER>{seq}</{fx}SEQUENCE-NUMBER>{nl}{ind}{ind}{ind}{ind}<{fx}SIGNAL-REF ID-REF=\"{sref}\"/>{nl}");
@@ -207,7 +230,8 @@ pub fn gen_documents(r: &mut Rng) -> Vec<Vec<u8>> {
         if r.chance(2, 3) {
             s += &format!("{ind}{ind}<{fx}MANUFACTURER-EXTENSION>{nl}");
             if r.chance(4, 5) {
-                s += &format!("{ind}{ind}{ind}<MESSAGE_TYPE>DLT_TYPE_LOG</MESSAGE_TYPE>{nl}{ind}{ind}{ind}<MESSAGE_INFO>DLT_LOG_WARN</MESSAGE_INFO>{nl}");
+                let (mt, mi) = if r.chance(1, 3) { (kw(r), kw(r)) } else { ("DLT_TYPE_LOG".to_string(), "DLT_LOG_WARN".to_string()) };
+                s += &format!("{ind}{ind}{ind}<MESSAGE_TYPE>{mt}</MESSAGE_TYPE>{nl}{ind}{ind}{ind}<MESSAGE_INFO>{mi}</MESSAGE_INFO>{nl}");
             }
             if r.chance(4, 5) {
                 s += &format!("{ind}{ind}{ind}<APPLICATION_ID>A{}</APPLICATION_ID>{nl}", r.below(3));
@@ -230,7 +254,8 @@ pub fn gen_documents(r: &mut Rng) -> Vec<Vec<u8>> {
     }
     let mut codings = vec![];
     for i in 0..ncod {
-        let bt = *r.pick(BASE_TYPES);
+        let bt_owned = if r.chance(1, 6) { kw(r) } else { (*r.pick(BASE_TYPES)).to_string() };
+        let bt = bt_owned.as_str();
         let ct = if r.bool() {
             format!("<{ho}CODED-TYPE {ho}BASE-DATA-TYPE=\"{bt}\" CATEGORY=\"STANDARD-LENGTH-TYPE\"/>")
         } else {
